@@ -96,6 +96,9 @@ def gen_case(streams, tier):
         # the wires to trace given as an explicit list in which some wire is mentioned twice
         # (interface wires plus wires of interest, with an overlap)
         'dup_track': f.randrange(64) if f.random() < 0.3 else None,
+        # the trace is printed (every base, compact and not, and as VCD) in the middle of the run,
+        # after this many cycles, and the run goes on: the prints at the end must show all of it
+        'print_midway': f.randrange(1, ncyc) if ncyc >= 2 and f.random() < 0.35 else None,
         'sched': world.gen_sched(streams),
     }
 
@@ -366,6 +369,12 @@ def run(case, res):
                 # planted-cell bookkeeping below: stop quietly
                 res.probes.hit('value_differs_from_reference')
                 return None
+        if case.get('print_midway') == ci + 1 and sim.tracer.trace:
+            v = check_print_trace(sim) or check_vcd(sim, case.get('vcd_clock', False), widths)
+            if v:
+                v.tags = sorted(set(v.tags + [kind, 'printed_midway']))
+                return v
+            res.faults.hit('trace_printed_in_the_middle_of_the_run')
         res.log.log(kind, 'step', ci, raised is not None)
     # ---- twin driven in batches by step_multiple, with planted wrong expectations ------
     wrong = {}
@@ -445,6 +454,12 @@ def run(case, res):
             return Violation('report', 'unparsable', {'err': str(e), 'text': buf.getvalue()[:300]}, [kind])
         report_cells.extend((s, n, e, a, pos) for (s, n, e, a) in cells)
         res.probes.hit('step_multiple_batches')
+        if case.get('print_midway') is not None and bi == 1 and not stop_flag and twin.tracer.trace \
+                and world.tracelen(twin):
+            v = check_print_trace(twin)
+            if v:
+                v.tags = sorted(set(v.tags + [kind, 'printed_midway', 'step_multiple']))
+                return v
         if stop_flag:
             want_hdr = 'Unexpected output (stopped after step with first error):'
             if not buf.getvalue().startswith(want_hdr):
@@ -583,6 +598,11 @@ def run(case, res):
     if v:
         v.tags = sorted(set(v.tags + [kind]))
         return v
+    if case.get('print_midway') is not None and twin.tracer.trace and world.tracelen(twin):
+        v = check_print_trace(twin)
+        if v:
+            v.tags = sorted(set(v.tags + [kind, 'step_multiple']))
+            return v
     res.probes.hit('text_channels_checked')
     sim = twin = None
     res.nontrivial = True
